@@ -117,3 +117,77 @@ Proof. intros ids Hi.
     by (vm_cast_no_check (@eq_refl bool true)).
   rewrite forallb_forall in A. specialize (A ids Hi). now apply andb_true_iff in A. Qed.
 Print Assumptions C17gen_toffoli_fredkin_hamiltonians.
+
+(* ================= the catalogue LIST functions and the state-name validator, REGENERATED from state_typical.py, povm_typical.py,
+   gate_typical.py, mprocess_typical.py, state_ensemble_typical.py: the lists quara returns ARE the named catalogues of Model/C17_Names.v
+   (same names, same order), and is_valid_state_name - the gate keeper of every state generator - accepts EXACTLY the listed names,
+   for every string. *)
+Lemma gen_state_lists :
+  g_get_state_names_1qubit = POk (VList (map VStr (state_names 0))) /\ g_get_state_names_2qubit = POk (VList (map VStr (state_names 1))) /\
+  g_get_state_names_3qubit = POk (VList (map VStr (state_names 2))) /\ g_get_state_names_1qutrit = POk (VList (map VStr (state_names 3))) /\
+  g_get_state_names_2qutrit = POk (VList (map VStr (state_names 4))).
+Proof. repeat split; vm_compute; reflexivity. Qed.
+Theorem C17gen_state_catalogue_lists :
+  is_strlist g_get_state_names_1qubit (state_names 0) && is_strlist g_get_state_names_2qubit (state_names 1) && is_strlist g_get_state_names_3qubit (state_names 2) &&
+  is_strlist g_get_state_names_1qutrit (state_names 3) && is_strlist g_get_state_names_2qutrit (state_names 4) && is_strlist g_get_state_names all_state_names = true.
+Proof. vm_compute. reflexivity. Qed.
+Print Assumptions C17gen_state_catalogue_lists.
+
+Theorem C17gen_state_validator_closed :
+  forall n : string, g_is_valid_state_name (VStr n) = POk (VBool (existsb (String.eqb n) all_state_names)).
+Proof. intros n. destruct gen_state_lists as [L0 [L1 [L2 [L3 L4]]]].
+  change all_state_names with (state_names 0 ++ state_names 1 ++ state_names 2 ++ state_names 3 ++ state_names 4 ++ [])%list.
+  rewrite !existsb_app. unfold g_is_valid_state_name.
+  rewrite L0. cbn [pbind]. rewrite py_in_strs. cbn [pbind py_truth]. destruct (existsb (String.eqb n) (state_names 0)); [reflexivity|].
+  rewrite L1. cbn [pbind]. rewrite py_in_strs. cbn [pbind py_truth]. destruct (existsb (String.eqb n) (state_names 1)); [reflexivity|].
+  rewrite L2. cbn [pbind]. rewrite py_in_strs. cbn [pbind py_truth]. destruct (existsb (String.eqb n) (state_names 2)); [reflexivity|].
+  rewrite L3. cbn [pbind]. rewrite py_in_strs. cbn [pbind py_truth]. destruct (existsb (String.eqb n) (state_names 3)); [reflexivity|].
+  rewrite L4. cbn [pbind]. rewrite py_in_strs. cbn [pbind py_truth]. destruct (existsb (String.eqb n) (state_names 4)); reflexivity. Qed.
+Print Assumptions C17gen_state_validator_closed.
+
+Theorem C17gen_povm_catalogue_lists :
+  is_strlist g_get_povm_names_1qubit (povm_names 0) && is_strlist g_get_povm_names_2qubit (povm_names 1) && is_strlist g_get_povm_names_3qubit (povm_names 2) &&
+  is_strlist g_get_povm_names_1qutrit (povm_names 3) && is_strlist g_get_povm_names_2qutrit (povm_names 4) &&
+  is_strlist g_get_povm_names (flat_map povm_names (seq 0 5)) &&
+  (* the two auxiliary validity lists together are exactly the 14 single names, rank-1 ones as in the tables *)
+  match g_get_povm_names_rank1, g_get_povm_names_not_rank1 with
+  | POk (VList r1), POk (VList r2) =>
+      forallb (fun k => Bool.eqb (povm1_rank1 k) (existsb (py_eqb (VStr (povm1_name k))) r1) && Bool.eqb (negb (povm1_rank1 k)) (existsb (py_eqb (VStr (povm1_name k))) r2)) (seq 0 14)
+      && Nat.eqb (List.length r1 + List.length r2) 14
+  | _, _ => false end = true.
+Proof. vm_compute. reflexivity. Qed.
+Print Assumptions C17gen_povm_catalogue_lists.
+
+Theorem C17gen_gate_mprocess_ensemble_lists :
+  is_strlist g_get_gate_names_1qubit (gate_names 0) && is_strlist g_get_gate_names_2qubit (gate_names 1) && is_strlist g_get_gate_names_3qubit (gate_names 2) &&
+  is_strlist g_get_gate_names_1qutrit (gate_names 3) && is_strlist g_get_gate_names_2qutrit_single_base_matrix (map fst cat_gates_2qutrit_single) &&
+  is_strlist g_get_gate_names_2qubit_asymmetric ["cx"; "zx90"] && is_strlist g_get_gate_names_3qubit_asymmetric ["toffoli"; "fredkin"] &&
+  match g_get_mprocess_names_type1, g_get_mprocess_names_type2 with
+  | POk (VList a), POk (VList b) => is_strlist (POk (VList (a ++ b)%list)) (map fst cat_mprocs) | _, _ => false end &&
+  is_strlist g_get_state_ensemble_names cat_ensembles = true.
+Proof. vm_compute. reflexivity. Qed.
+Print Assumptions C17gen_gate_mprocess_ensemble_lists.
+
+(* ================= the DISPATCH of the state generators (generate_state_pure_state_vector_from_name incl. its nested helper, the eval look-up,
+   _generate_pure_state_vec_tensor_product, tensor_product_for_vecs; generate_state_density_mat_from_name), regenerated with the numeric vector
+   functions as ORACLE atoms: every catalogued name goes to the vector functions its table code names, in tensor order; EVERY other string raises. *)
+Theorem C17gen_state_dispatch_catalogue :
+  forall sys, (sys < 5)%nat -> forall e, In e (cat_states sys) ->
+    is_kronvec (g_generate_state_pure_state_vector_from_name (VStr (fst e))) (state_atoms (snd e)) = true /\
+    is_app1_kronvec (g_generate_state_density_mat_from_name (VStr (fst e))) "calc_mat_from_vector_adjoint" (state_atoms (snd e)) = true.
+Proof. intros sys Hs e He.
+  assert (A : forallb (fun sys => forallb (fun e : string * sname =>
+                is_kronvec (g_generate_state_pure_state_vector_from_name (VStr (fst e))) (state_atoms (snd e)) &&
+                is_app1_kronvec (g_generate_state_density_mat_from_name (VStr (fst e))) "calc_mat_from_vector_adjoint" (state_atoms (snd e))) (cat_states sys)) (seq 0 5) = true)
+    by (vm_cast_no_check (@eq_refl bool true)).
+  rewrite forallb_forall in A. specialize (A sys ltac:(apply in_seq; lia)). rewrite forallb_forall in A. specialize (A e He). now apply andb_true_iff in A. Qed.
+Print Assumptions C17gen_state_dispatch_catalogue.
+
+Theorem C17gen_state_generators_closed :
+  forall n : string, existsb (String.eqb n) all_state_names = false ->
+    g_generate_state_pure_state_vector_from_name (VStr n) = PErr "ValueError" /\
+    g_generate_state_density_mat_from_name (VStr n) = PErr "NotImplementedError".
+Proof. intros n H. split.
+  - unfold g_generate_state_pure_state_vector_from_name. rewrite C17gen_state_validator_closed, H. reflexivity.
+  - unfold g_generate_state_density_mat_from_name. rewrite C17gen_state_validator_closed, H. reflexivity. Qed.
+Print Assumptions C17gen_state_generators_closed.
